@@ -75,7 +75,7 @@ prop("C08", "proof", "Wrap as a derived machine of the parser model; ReadFrom ch
      "Lean 4 proof on the buffer model + differential correspondence with scripted readers",
      [S("p-wrap", 300, 5000, ["w.eof", "w.readererr", "w.shrunk"])],
      "assumes readers never return (0, nil) forever", GEN_RULE, "§8 C08")
-prop("C09", "translation_validation", "suffix.Sort is certified per input against the Lean specification saSpec (sorted permutation, proved unique); LCP (Kasai) and InvertSA are modelled exactly and proved correct in Lean",
+prop("C09", "proof", "suffix.Sort is certified per input against the Lean specification saSpec (sorted permutation, proved unique); LCP (Kasai) and InvertSA are modelled exactly and proved correct in Lean",
      "Lean 4 proof (Kasai, InvertSA) + per-input certification of Sort against a verified specification",
      [S("s-suffix", 300, 5000, ["s.sort", "s.lcp", "s.sort.long"]), S("s-exhaustive", 256, 2048, ["s.sort"])],
      "DivSufSort internals are not modelled; forced thresholds 1..3 via the verif hook", GEN_RULE, "§8 C09")
